@@ -29,30 +29,45 @@ def close_ctx(ctx):
 
 # ---------------------------------------------------------------- C17
 def impl_c17(case, scratch):
-    """case: names[i], flagged[i], uses[i] (indices), redirect[i] (index or None)"""
+    """case: names[i], flagged[i], uses[i] (indices), redirect[i] (index or None); optional premarked[i] (stored with
+    need_pre_expand=True) and phase2 (indices stored only after a first analysis, which is then run again)"""
     names = case["names"]
+    n = len(names)
+    premarked = case.get("premarked") or [False] * n
+    phase2 = set(case.get("phase2") or [])
     ctx = new_ctx(scratch)
     try:
-        for i, nm in enumerate(names):
-            red = case["redirect"][i]
-            if red is not None:
-                ctx.add_page("Template:" + nm, 10, body=None,
-                             redirect_to="Template:" + names[red])
-            else:
-                ctx.add_page("Template:" + nm, 10, body="body of " + nm)
-        ctx.db_conn.commit()
         title_to_i = {"Template:" + nm: i for i, nm in enumerate(names)}
-        calls = []
+        runs = []
 
-        def classify(c, page):
-            i = title_to_i[page.title]
-            calls.append(i)
-            return set(names[j] for j in case["uses"][i]), bool(case["flagged"][i])
+        def store(ids):
+            for i in ids:
+                nm, red = names[i], case["redirect"][i]
+                if red is not None:
+                    ctx.add_page("Template:" + nm, 10, body=None, redirect_to="Template:" + names[red],
+                                 need_pre_expand=bool(premarked[i]))
+                else:
+                    ctx.add_page("Template:" + nm, 10, body="body of " + nm, need_pre_expand=bool(premarked[i]))
+            ctx.db_conn.commit()
 
-        ctx.analyze_templates(classify)
-        marked = sorted(title_to_i[p.title] for p in ctx.get_all_pages([10])
-                        if p.need_pre_expand)
-        return {"outcome": "ok", "marked": marked, "classified": sorted(calls)}
+        def analyze():
+            calls = []
+
+            def classify(c, page):
+                i = title_to_i[page.title]
+                calls.append(i)
+                return set(names[j] for j in case["uses"][i]), bool(case["flagged"][i])
+
+            ctx.analyze_templates(classify)
+            marked = sorted(title_to_i[p.title] for p in ctx.get_all_pages([10]) if p.need_pre_expand)
+            runs.append({"marked": marked, "classified": sorted(calls)})
+
+        store([i for i in range(n) if i not in phase2])
+        analyze()
+        if phase2:
+            store(sorted(phase2))
+            analyze()
+        return {"outcome": "ok", "marked": runs[-1]["marked"], "classified": runs[-1]["classified"], "runs": runs}
     finally:
         close_ctx(ctx)
 
@@ -117,7 +132,8 @@ return u
 ECHO_MODULE = r"""
 local export = {}
 local function q(v)
-  return (tostring(v):gsub("[%z\1-\31\\|=;%%]", function(c) return string.format("%%%02X", c:byte()) end))
+  -- everything but plain word characters is written as %XX, so that the caller sees exactly the bytes Lua saw
+  return (tostring(v):gsub("[^%w _.-]", function(c) return string.format("%%%02X", c:byte()) end))
 end
 local function dump(args)
   local keys = {}
@@ -155,11 +171,20 @@ return export
 """
 
 
+NOWIKI_CHAR = "\U0010203d"
+
+
+def final_text(v):
+    """expander-internal strings hold one private character for <nowiki/>; finalisation prints it as '<nowiki />'"""
+    return v.replace(NOWIKI_CHAR, "<nowiki />") if isinstance(v, str) else v
+
+
 def undump(s):
     """Inverse of the echo module's dump(): list of [key, value] (int keys for numbers)."""
     import re
     def uq(x):
-        return re.sub(r"%([0-9A-F]{2})", lambda m: chr(int(m.group(1), 16)), x)
+        return re.sub(r"(?:%[0-9A-F]{2})+",
+                      lambda m: bytes(int(h, 16) for h in re.findall(r"%(..)", m.group(0))).decode("utf-8", "replace"), x)
     out = []
     if s == "":
         return out
@@ -527,7 +552,8 @@ def impl_c08(case, scratch):
         res["lua"] = undump(e) if e is not None else None
         res["each"] = [ex(a) for a in case["args"]]            # each argument expanded in the calling page context
         got = []
-        ex("{{s" + src + "}}", template_fn=lambda n, ht: got.append([n, [[k, v] for k, v in ht.items()]]) and None)
+        # the hook receives expander-internal strings (placeholders for <nowiki> content): print them as finalisation would
+        ex("{{s" + src + "}}", template_fn=lambda n, ht: got.append([n, [[k, ctx._finalize_expand(v)] for k, v in ht.items()]]) and None)
         got = [g[1] for g in got if g[0] == "s"]
         res["tfn"] = got[-1] if got else None
     elif kind == "parent":
@@ -538,10 +564,10 @@ def impl_c08(case, scratch):
         m = out[out.find("<<") + 2:out.rfind(">>")] if "<<" in out else None
         if m is not None and "|" in m:
             t, d = m.split("|", 1)
-            res["parent_title"] = t
+            res["parent_title"] = undump("sx=" + t)[0][1]         # the title is %-quoted like every dumped value
             res["parent_args"] = undump(d)
         got = []
-        ex(call, template_fn=lambda n, ht: got.append([n, [[k, v] for k, v in ht.items()]]) and None)
+        ex(call, template_fn=lambda n, ht: got.append([n, [[k, ctx._finalize_expand(v)] for k, v in ht.items()]]) and None)
         res["tfn"] = got
     elif kind == "preprocess":
         _c08_n += 1
@@ -814,6 +840,16 @@ C09_MODULES = {
     "mathlib": "local e = {}\nfunction e.main(frame) math.zz = (math.zz or 0) + 1 return 'h=' .. math.zz end\nreturn e",
     "pkg": "local e = {}\nfunction e.main(frame) local p = package and package.loaded if p then p.zz = (p.zz or 0) + 1 return 'p=' .. p.zz end return 'p=nil' end\nreturn e",
 }
+C09_MODULES.update({
+    # a module that patches library tables when it is loaded, required after nested invocations of an already loaded module
+    "polyfill": "string.trim2 = (string.trim2 or 0) + 1\ntable.size2 = (table.size2 or 0) + 1\nmw.compat_loaded = (mw.compat_loaded or 0) + 1\nreturn {}",
+    "nestb": "local e = {}\nfunction e.main(frame) return 'b' end\nreturn e",
+    "nesta": "local e = {}\nfunction e.main(frame) local x = frame:preprocess('{{#invoke:nestb|main}}') .. frame:preprocess('{{#invoke:nestb|main}}') "
+             "require('Module:polyfill') return 'A' .. x .. tostring(string.trim2) end\nreturn e",
+    "nesta2": "local e = {}\nfunction e.main(frame) local x = frame:expandTemplate{title='cnt'} .. frame:expandTemplate{title='cnt'} "
+              "require('Module:polyfill') return 'A2' .. tostring(table.size2) end\nreturn e",
+    "probe2": "local e = {}\nfunction e.main(frame) return 'p2=' .. tostring(string.trim2) .. tostring(table.size2) .. tostring(mw.compat_loaded) end\nreturn e",
+})
 C09_TEMPLATES = dict(STD_TEMPLATES, **{"cnt": "{{#invoke:counter|main}}/{{#invoke:counter|main}}"})
 
 
@@ -936,7 +972,8 @@ def impl_c11(case, scratch):
         over["Added page"] = {"namespace_id": 0, "body": "new added"}
         with open(jpath, "w") as f:
             json.dump(over, f)
-        extra = {"json": jpath, "close": case.get("close", True), "pages": [["Page %d" % i, "new %d" % i] for i in range(n)]}
+        extra = {"json": jpath, "close": case.get("close", True), "pages": [["Page %d" % i, "new %d" % i] for i in range(n)],
+                 "mid": [["Page %d" % i, "mid %d" % i] for i in range(n)]}
         sc = case["scenario"]
         pre = []
         if sc in ("restore", "restore-dirty"):
@@ -949,9 +986,12 @@ def impl_c11(case, scratch):
         elif sc == "overwrite-only":
             flow = "overwrite-only"
         else:
-            flow = "backup-only"
+            flow = "backup-only"       # also the first step of "rebackup"
         k = case.get("kill") or 10 ** 9
         rc, lines, err = _c11_child(flow, p, k, extra)
+        if sc == "rebackup" and case.get("kill"):
+            # after the killed backup: new content, then a complete backup + overwrite + close
+            pre.append(_c11_child("mid-override", p, 10 ** 9, extra)[0])
         files = sorted(os.listdir(d))
         rc2 = None
         if case.get("second_kill"):
